@@ -107,9 +107,28 @@ def nd_cases(rng, tier):
     return cs
 
 
+_COV = {}
+
+
+def extra_coverage():
+    return {'anchored_line_coverage_during_correspondence': _COV}
+
+
 def correspondence(rng, tier):
+    import odl
+    from odl.discr import diff_ops as D
+    with C.LineTrace([D.finite_diff, D.PartialDerivative._call, D.Gradient._call, D.Divergence._call,
+                      D.Laplacian._call, D.Gradient.adjoint.fget, D.Divergence.adjoint.fget,
+                      D.PartialDerivative.adjoint.fget, D.Laplacian.adjoint.fget]) as lt:
+        res = _correspondence(rng, tier)
+    _COV.clear()
+    _COV.update(lt.report())
+    return res
+
+
+def _correspondence(rng, tier):
     cs = C.CaseSet('fd1d', ['C13.Syntax', 'Gen.FiniteDiff', 'C13.Model', 'C13.Corr'], 'check1', 'case1')
-    sizes = range(2, 8) if tier == 'quick' else range(2, 11)
+    sizes = range(1, 8) if tier == 'quick' else range(1, 11)
     nrand = 2 if tier == 'quick' else 6
     for m, p, n in itertools.product(METHS, PMODES, sizes):
         vecs = [[1.0 if i == j else 0.0 for i in range(n)] for j in range(n)]
